@@ -2,9 +2,10 @@
    media/cache/h264cache.go, hevccache.go: getPalyloadType + the flag priority of CachePack;
    media/cache/flvcache.go + av/format/flv/tag.go: tag classification and PushTo.
    Every Go index expression is a checked access here; an index out of range is the explicit
-   outcome [FPanic] / [CPanic] (the code as it is at /repo HEAD has no bounds checks in the
-   STAP-A / AP scan — D11).  The panic outcome is produced in exactly one place, [agg_scan]
-   (and the dead branch of the FU case).  Bytes are Z in 0..255.
+   outcome [FPanic] / [CPanic].  Since the repair of D11 (/repo 5bcf7ee, 3483165) the STAP-A / AP
+   scan guards every access, so no payload reaches that outcome (classify_total); before it a
+   truncated size field panicked (kept as agg_scan_unchecked_refuted in the proofs).
+   Bytes are Z in 0..255.
    No proofs here (Proofs/C02ClassifyProofs.v). *)
 From Coq Require Import ZArith List Bool.
 From V Require Import StreamLts Cache.
@@ -32,20 +33,26 @@ Definition hevc_nal_type (t : Z) (f : flags) : flags :=
 Definition h264_hdr_type (h : Z) : Z := Z.land h 31.
 Definition hevc_hdr_type (h : Z) : Z := Z.land (Z.shiftr h 1) 63.
 
-(* the scan over an aggregation packet (STAP-A family / AP):
-     for { size := payload[off]<<8 | payload[off+1]; if size < 1 { return }
-           off += 2; nalType(type(payload[off])); off += size; if off >= len { break } }
+(* the scan over an aggregation packet (STAP-A family / AP), as repaired in /repo 5bcf7ee, 3483165:
+     for { if off+2 > len { return }                       // truncated size field
+           size := payload[off]<<8 | payload[off+1]; if size < 1 { return }
+           off += 2; if off >= len { return }               // size field without a NAL unit
+           nalType(type(payload[off])); off += size; if off >= len { break } }
+   A return hands back the flags collected so far.  The index expressions stay checked accesses
+   ([FPanic] on failure); [classify_total] shows the guards make them unreachable.
    [fuel] only makes the recursion structural: off grows by >= 3 per round, so
-   fuel = length payload is never used up (agg_scan_no_fuel). *)
+   fuel = length payload is never used up. *)
 Fixpoint agg_scan (hdr_type : Z -> Z) (upd : Z -> flags -> flags)
          (fuel : nat) (payload : list Z) (off : nat) (f : flags) : fres :=
   match fuel with
   | O => FFuel
   | S fuel' =>
+      if (length payload <? off + 2)%nat then FOk f else
       match nth_error payload off, nth_error payload (S off) with
       | Some b0, Some b1 =>
           let size := b0 * 256 + b1 in
           if size <? 1 then FOk f
+          else if (length payload <=? off + 2)%nat then FOk f
           else match nth_error payload (off + 2) with
                | Some h =>
                    let f' := upd (hdr_type h) f in
